@@ -50,6 +50,18 @@ theorem extraPath_inj {s s' : String} (hs : s ∈ suffixes) (hs' : s' ∈ suffix
     obtain ⟨h1, h2⟩ := extraPath_inj hs hs' (p := a2 :: t) (q := b2 :: u) (by simp) (by simp) h.2
     exact ⟨by rw [h.1, h1], h2⟩
 
+/-- the same property, different extras: different names (also for the degenerate empty path) -/
+theorem extraPath_inj_suffix {s s' : String} (hs : s ∈ suffixes) (hs' : s' ∈ suffixes) :
+    ∀ {p : Path}, extraPath p s = extraPath p s' → s = s'
+  | [], h => by simpa [extraPath] using h
+  | _ :: _, h => (extraPath_inj hs hs' (by simp) (by simp) h).2
+
+theorem extras_nodup_any (p : Path) : (extras p).Nodup := by
+  unfold extras
+  refine List.Nodup.map_on ?_ (by decide)
+  intro s hs s' hs' h
+  exact extraPath_inj_suffix hs hs' h
+
 /-- the hypothesis in the terms of the finding: every dataset below /metadata has a name, and no dataset sits at
 a `<name>.<extra>` name of a compound property -/
 def NoNameTaken (f : File) : Prop :=
